@@ -117,6 +117,27 @@ class TxnAnalysis:
         evs.append(('commit', c))
       elif d.endswith('_connection.rollback') and d.startswith('self.'):
         evs.append(('rollback', c))
+      elif d.startswith('self.') and d.count('.') == 1 and d[5:] in self.svc.sql.methods and d[5:] != self.fi.name \
+          and getattr(self, '_depth', 0) < 3:
+        # a private helper of the datastore: its statements happen here (source order; helpers are straight-line)
+        h = self.svc.sql.methods[d[5:]]
+        if h.name.startswith('_') and not h.name.startswith('__'):
+          sub = TxnAnalysis.__new__(TxnAnalysis)
+          sub.ctx, sub.svc, sub.fi = self.ctx, self.svc, h
+          sub.g = cfgmod.CFG(h.node)
+          sub.rd = flow.ReachingDefs(sub.g)
+          sub.kinds = query_kinds(h, sub.g, sub.rd)
+          # a query passed as argument keeps the caller's kind
+          for i, a in enumerate(c.args):
+            if isinstance(a, ast.Name) and a.id in self.kinds and i + 1 < len(h.params) + 1:
+              ps = [p for p in h.params if p != 'self']
+              if i < len(ps):
+                sub.kinds[ps[i]] = self.kinds[a.id]
+          sub.wrapper, sub.wrapper_rolls_back = self.wrapper, self.wrapper_rolls_back
+          sub._depth = getattr(self, '_depth', 0) + 1
+          for hn in sorted((x for x in sub.g.nodes if x.ast is not None), key=lambda x: (getattr(x.ast, 'lineno', 0), x.id)):
+            for k, cc in sub._events(hn):
+              evs.append((k, c))
     return evs
 
   def _raise_model(self, n: cfgmod.Node):
@@ -183,6 +204,7 @@ def run(ctx) -> None:
            'SQL max_trial_id returns a query result', 4)
   ctx.rule('R7', 'the SQL engine/connection is not put into autocommit: explicit commit() is the only '
            'durability point (the transaction shape of R1/R2 is meaningless otherwise)', 1)
+  ctx.rule('R8', 'opening the datastore (constructor and what it calls) writes no rows', 1)
   ctx.trust('SQLite: commit() makes all pending statements durable atomically; rollback() discards them')
   r7_engine_config(ctx, svc)
   sql = svc.sql
@@ -284,6 +306,38 @@ def run(ctx) -> None:
 
   r4_one_mutation(ctx, svc)
   r6_ids(ctx, svc)
+  r8_startup_readonly(ctx, svc, rolls, wrapper.name)
+
+
+def r8_startup_readonly(ctx, svc: Svc, rolls: bool, wrapper_name: str) -> None:
+  """Opening the database changes no row: the constructor (and every private method it reaches) creates the
+  schema only.  A start-up "repair" pass rewrites acknowledged state after exactly the crashes the property is about."""
+  sql = svc.sql
+  init = sql.methods.get('__init__')
+  if init is None:
+    raise AnalysisError('SQLDataStore.__init__ not found')
+  todo, seen = [init], set()
+  n_exec = 0
+  while todo:
+    m = todo.pop()
+    if m.qualname in seen:
+      continue
+    seen.add(m.qualname)
+    ta = TxnAnalysis(ctx, svc, m, rolls, wrapper_name)
+    writes = [(k, c) for n in ta.g.nodes for k, c in ta.node_ev.get(n.id, []) if k in ('wwrite', 'dwrite', 'commit')]
+    n_exec += len([1 for n in ta.g.nodes for k, c in ta.node_ev.get(n.id, [])])
+    ctx.check(not writes, 'R8', f'start-up: {m.name}', writes[0][1] if writes else m.node,
+              'no row write and no commit when the datastore is opened',
+              f'{m.name}() runs when the datastore is opened and rewrites rows ({unparse(writes[0][1], 60) if writes else ""}): after a crash '
+              'the restarted server no longer shows what was acknowledged before it (e.g. trials handed out by completed '
+              'operations are taken back)', construct=f'startup-write:{m.name}', func=m.qualname)
+    for c in flow.calls_in(m.node):
+      d = dotted(c.func) or ''
+      if d.startswith('self.') and d.count('.') == 1 and d[5:] in sql.methods and d[5:] not in ('__init__',):
+        todo.append(sql.methods[d[5:]])
+  creates = any((dotted(c.func) or '').endswith('create_all') for c in flow.calls_in(init.node))
+  if not creates:
+    raise AnalysisError('SQLDataStore.__init__: schema creation (create_all) not found')
 
 
 def r7_engine_config(ctx, svc: Svc) -> None:
